@@ -1008,7 +1008,10 @@ def r7_histories(L, repo):
     later call returning something else."""
     from consteval import Opaque
     ci = repo.need_class("data_dump", "DATADumpFile")
-    recs = [(b"\x01", b"abc"), (b"\x02", b"z"), (b"\x01", b"xy")]
+    # payloads with the lengths of real records: a Tx message with a GMSK burst (6 + 148 octets), the shortest legal record - a
+    # TRXDv1 NOPE indication (11 octets) -, a Tx message with an EDGE burst (6 + 444)
+    recs = [(b"\x01", bytes([0x00, 1, 2, 3, 4, 5]) + bytes([1, 0] * 74)), (b"\x02", bytes([0x10, 0, 0, 0, 9, 60, 0, 0, 0x80, 0, 0])),
+            (b"\x01", bytes([0x01, 0, 0, 0, 7, 0]) + bytes([0, 1, 1] * 148))]
     tag_cls = {}
     for nm, v in (("TAG_TxMsg", "Tx"), ("TAG_RxMsg", "Rx")):
         try:
@@ -1028,7 +1031,7 @@ def r7_histories(L, repo):
         if count is not None:
             out = out[:count]
         return out
-    NEW = (b"\x02", b"new!")
+    NEW = (b"\x02", bytes([0x00, 0, 0, 1, 0, 70, 0, 0]) + bytes([127] * 148))
     histories = [
         ("full read twice", [("parse_all", {}), ("parse_all", {})]),
         ("random access, then full read", [("parse_msg", {"idx": 1}), ("parse_all", {}), ("parse_msg", {"idx": 0})]),
@@ -1063,7 +1066,12 @@ def r7_histories(L, repo):
                     def parse(args, nm=name):
                         parsed[nm] = bytes(args[0])
                     e.hooks[name + ".parse_msg"] = parse
-                    return Opaque(name)
+                    o_ = Opaque(name)
+                    try:
+                        o_.ci = repo.need_class("data_msg", kind + "Msg")
+                    except AnalysisError:
+                        pass
+                    return o_
                 return h
 
             def dump(a):
